@@ -28,6 +28,9 @@ type FakeRegistry struct {
 	uploads   int
 	log       []string
 	PageSize  int // referrers per page (0: all on one page)
+	// NoReferrersAPI: the registry predates the referrers API (clients fall back to the referrers tag schema).
+	// FailDelete: it also refuses to delete manifests (a client cannot remove the index it has just replaced).
+	NoReferrersAPI, FailDelete bool
 	srv       *httptest.Server
 }
 
@@ -129,7 +132,7 @@ func (f *FakeRegistry) ServeHTTP(w http.ResponseWriter, r *http.Request) {
 			var m struct {
 				Subject *ocispec.Descriptor `json:"subject"`
 			}
-			if json.Unmarshal(body, &m) == nil && m.Subject != nil {
+			if json.Unmarshal(body, &m) == nil && m.Subject != nil && !f.NoReferrersAPI {
 				w.Header().Set("OCI-Subject", m.Subject.Digest.String())
 			}
 			w.Header().Set("Docker-Content-Digest", d.String())
@@ -153,11 +156,17 @@ func (f *FakeRegistry) ServeHTTP(w http.ResponseWriter, r *http.Request) {
 				w.Write(m.content)
 			}
 		case http.MethodDelete:
+			if f.FailDelete {
+				http.Error(w, `{"errors":[{"code":"UNSUPPORTED","message":"deletion is disabled"}]}`, http.StatusMethodNotAllowed)
+				return
+			}
 			delete(f.manifests, digest.Digest(ref))
 			w.WriteHeader(http.StatusAccepted)
 		default:
 			w.WriteHeader(http.StatusMethodNotAllowed)
 		}
+	case strings.HasPrefix(rest, "referrers/") && f.NoReferrersAPI:
+		http.Error(w, `404 page not found`, http.StatusNotFound)
 	case strings.HasPrefix(rest, "referrers/") && r.Method == http.MethodGet:
 		subject := digest.Digest(strings.TrimPrefix(rest, "referrers/"))
 		filter := r.URL.Query().Get("artifactType")
